@@ -191,7 +191,7 @@ theorem tagged_step (fuel : Nat) (ihT : TypeGoal e lx X fuel) (ihL : TaggedGoal 
     | true =>
       rw [hp] at h2
       simp only [if_true, getNextId_bind] at h2
-      have hinc : (decide (ctx.fileid ≠ 0)) = false := by simp [hfid]
+      have hinc : (decide (tok.fileid ≠ 0)) = false := by simp [hin.fid _ _ h0]
       rw [hinc] at h2
       have hinv' := hinv.cmtStep tok.text ctx.line off
       obtain ⟨xs, sub', cm', R', hcm, inv', nr', res'⟩ := ihL ctx arms true ch _ _ ch' cmR s' h2 hfid harms
